@@ -12,9 +12,19 @@ void h_rand_fail_next(int n);
 const char *h_regex_pattern(const regex_t *preg);
 void h_alloc_arm(long fail_at, int track_sites);
 long h_alloc_count(void);
+void h_execlog_reset(void);
+char *h_execlog_take(void);
+const char *h_dns_last_qname(void);
+int h_dns_last_qtype(void);
+void h_dns_set_answer(const uint8_t *b, int len, int retlen);
 void h_lock_edges(FILE *out);
 void h_lock_reset(void);
 long h_alloc_count(void);
+void h_execlog_reset(void);
+char *h_execlog_take(void);
+const char *h_dns_last_qname(void);
+int h_dns_last_qtype(void);
+void h_dns_set_answer(const uint8_t *b, int len, int retlen);
 char *h_alloc_sites_take(void);
 int h_rq_ordinal(const void *p);
 int h_rq_live(void);
